@@ -786,8 +786,11 @@ class Discharger:
         if recv["k"] == "call" and recv["f"]["k"] == "path" and len(recv["args"]) == 1:
             hname = recv["f"]["segs"][-1]
             h = next((x for x in self.f.fns.values() if x.name == hname and not x.test), None)
-            if h is not None and find_all(h.body, lambda x: x.get("k") == "mcall" and x["m"] == "reduce"):
-                return self.nonempty_symbolic(f, recv)
+            if h is not None and h.impl is not None or (h is not None and norm_ty(h.node.get("output") or "").startswith("Option<")):
+                # a crate helper returning an Option built from its one argument: Some whenever the argument is not empty
+                r_ne = self.nonempty_symbolic(f, recv)
+                if r_ne[0] is not None:
+                    return r_ne
         # ensure-get
         core = recv
         while core["k"] == "mcall" and core["m"] in ("as_ref", "as_mut", "clone", "cloned", "copied", "as_deref") and not core["args"]:
@@ -886,6 +889,22 @@ class Discharger:
             hname = recv["f"]["segs"][-1]
             h = next((x for x in self.f.fns.values() if x.name == hname and not x.test), None)
             red = h is not None and bool(find_all(h.body, lambda x: x.get("k") == "mcall" and x["m"] == "reduce")) and bool(find_all(h.body, lambda x: x.get("k") == "mcall" and x["m"] == "chars"))
+            if h is not None and not red:
+                # any other spelling (first character, then a loop over the rest; fold from an Option; …): the helper is
+                # evaluated on texts of one, two and three unknown characters (functions of one character uninterpreted) and
+                # must yield Some each time
+                from .. import probe as P
+
+                try:
+                    oks = []
+                    for n_ in (1, 2, 3):
+                        pr = P.Probe(self.f, None, h.module)
+                        pr.opaque_calls = {g_.key for g_ in self.f.fns.values() if not g_.test and [t_ for nn_, t_ in g_.params if nn_ != "self"] == ["char"]}
+                        r_ = pr.invoke(h, None, [[P.Opq("c%d" % i_) for i_ in range(n_)]])
+                        oks.append(isinstance(r_, tuple) and r_ and r_[0] == "some")
+                    red = all(oks)
+                except (P.NoEval, P.Panic):
+                    red = False
             return n["min"] >= 1 and red, "nonempty", "`%s` is parsed by %s{%d,}: reduce() over a non-empty string is Some" % (arg, peg.cs_show(n["cs"]), n["min"])
         return None, "nonempty", "argument `%s` not bound from a parser tuple" % arg
 
